@@ -557,6 +557,24 @@ impl<'c> FnVisitor<'c> {
 				"L7",
 			);
 		}
+		else if name == "wallet_lock" {
+			// L6: the macro's definition (libwallet/src/lib.rs) with its two arguments substituted
+			let args = split_top_commas(&mac.tokens);
+			if args.len() != 2 {
+				die("wallet_lock! expects two arguments");
+			}
+			let w = self.src[args[1].0..args[1].1].to_string();
+			self.push(
+				whole.0,
+				whole.1,
+				vec![
+					Part::Text("let inst = ".into()),
+					Part::Src(args[0].0, args[0].1),
+					Part::Text(format!(".clone();\nlet mut w_lock = inst.lock();\nlet w_provider = w_lock.lc_provider()?;\nlet {} = w_provider.wallet_inst()?;", w)),
+				],
+				"L6",
+			);
+		}
 		// vec! and anything else: left verbatim (Verus decides)
 	}
 }
@@ -693,6 +711,8 @@ impl<'ast, 'c> Visit<'ast> for FnVisitor<'c> {
 			if !parts.is_empty() {
 				parts.push(Part::Text("    ".to_string()));
 				self.push(bs, bs, parts, "A2");
+				// Verus' grammar: an annotated loop directly followed by a block needs a separator
+				self.push(we, we, vec![Part::Text(";".to_string())], "A2");
 			}
 		}
 		syn::visit::visit_expr_for_loop(self, fl);
@@ -720,6 +740,8 @@ impl<'ast, 'c> Visit<'ast> for FnVisitor<'c> {
 			if !parts.is_empty() {
 				parts.push(Part::Text("    ".to_string()));
 				self.push(bs, bs, parts, "A2");
+				// Verus' grammar: an annotated loop directly followed by a block needs a separator
+				self.push(we, we, vec![Part::Text(";".to_string())], "A2");
 			}
 		}
 		syn::visit::visit_expr_while(self, wl);
@@ -747,6 +769,8 @@ impl<'ast, 'c> Visit<'ast> for FnVisitor<'c> {
 			if !parts.is_empty() {
 				parts.push(Part::Text("    ".to_string()));
 				self.push(bs, bs, parts, "A2");
+				// Verus' grammar: an annotated loop directly followed by a block needs a separator
+				self.push(we, we, vec![Part::Text(";".to_string())], "A2");
 			}
 		}
 		syn::visit::visit_expr_loop(self, l);
@@ -1432,6 +1456,14 @@ fn main() {
 	}
 	let spec_end = ctx.out.buf.len();
 
+	// L6 guard: the template above must be the repository's macro definition
+	if let Ok(lib) = std::fs::read_to_string(format!("{}/libwallet/src/lib.rs", repo)) {
+		let n: String = lib.chars().filter(|c| !c.is_whitespace()).collect();
+		let want = "macro_rules!wallet_lock{($wallet_inst:expr,$wallet:ident)=>{letinst=$wallet_inst.clone();letmutw_lock=inst.lock();letw_provider=w_lock.lc_provider()?;let$wallet=w_provider.wallet_inst()?;};}";
+		if !n.contains(want) && cfg_text.contains("wallet_lock") {
+			die("L6: wallet_lock! definition in libwallet/src/lib.rs differs from the lowering template");
+		}
+	}
 	let mut sources: BTreeMap<String, (String, syn::File)> = BTreeMap::new();
 	for it in &cfg.item {
 		if !sources.contains_key(&it.file) {
